@@ -483,6 +483,24 @@ def run(tier="quick", replay=None):
                     "differs from the other entry points given the same -i list" % (f.path, "; ".join(bad)), fn=f.path)
     R.floor("R11.f", "set_search_paths call sites in entry points", nsp, 2)
 
+    # ---------------- R11.g every entry compiles the text it was given -------------------------------
+    TEXT_PASS = ("deref", "as_str", "borrow", "as_ref", "clone", "to_string", "to_owned", "into", "from", "as_bytes",
+                 "bytes", "as_mut", "deref_mut")
+    ntext = 0
+    for f, bb, t in prog.call_sites(lambda c: c == COMPILE_FILE):
+        ntext += 1
+        fl = Flow(f)
+        l = op_local(t["args"][3]) if len(t["args"]) > 3 else None
+        src = fl.back_pure([l]) if l is not None else set()
+        rewrites = sorted({(callee_of(tt) or "?") for x in src for _, tt in fl.call_defs.get(x, [])
+                           if (callee_of(tt) or "").rsplit("::", 1)[-1] not in TEXT_PASS})
+        from_outside = [x for x in src if 1 <= x <= f.argc] or [x for x in src if x < 0]
+        R.check(not rewrites and bool(from_outside), "R11.g", "R11.g|source-text|%s" % f.path, f.loc(bb),
+                "auto: the source text reaches compile_file unchanged (borrows/copies of the entry's own input only)",
+                "%s rewrites the source text before compiling it (%s): the same file then compiles to different CLVM through "
+                "this entry point than through the others" % (f.path, rewrites or "text not derived from the entry's input"), fn=f.path)
+    R.floor("R11.g", "compile_file call sites", ntext, 2)
+
     # ---------------- R11.d classic path ------------------------------------------------------------
     want = ("classic::clvm_tools::stages::stage_2::operators::run_program_for_search_paths", "classic::clvm_tools::stages::run")
     for ent in (LIB_CORE, "classic::clvm_tools::cmds::launch_tool"):
